@@ -22,6 +22,10 @@ type GraphBinCase struct {
 	Via     string   `json:"via"`   // name default clean
 	Undef   int      `json:"undef"` // task that also depends on an undefined name (-1: none)
 	Flags   []string `json:"flags"`
+	// Req (Via == "name" only): the tasks named on the command line, in order, repeats allowed
+	// (empty = just task 0); ReqUndef > 0 puts an undefined name at position ReqUndef-1 of that list
+	Req      []int `json:"req,omitempty"`
+	ReqUndef int   `json:"req_undef,omitempty"`
 }
 
 var gbNames = []string{"alpha", "bravo", "charlie", "delta"}
@@ -75,6 +79,15 @@ func genGraphBinBody(t *rapid.T) GraphBinCase {
 		c.Undef = rapid.IntRange(0, n-1).Draw(t, "undef_task")
 	}
 	c.Flags = rapid.SampledFrom([][]string{nil, nil, {"--force"}, {"--json"}, {"--quiet"}}).Draw(t, "flags")
+	if c.Via == "name" && rapid.Bool().Draw(t, "several_requests") {
+		k := rapid.IntRange(2, 4).Draw(t, "nreq")
+		for i := 0; i < k; i++ {
+			c.Req = append(c.Req, rapid.IntRange(0, n-1).Draw(t, "req"))
+		}
+		if rapid.IntRange(0, 4).Draw(t, "req_undef") == 0 {
+			c.ReqUndef = 1 + rapid.IntRange(0, k).Draw(t, "req_undef_pos")
+		}
+	}
 	return c
 }
 
@@ -91,6 +104,16 @@ func execGraphBin(s *ev.Shard, b *sandbox.Box, c GraphBinCase) *rp.Fail {
 	switch c.Via {
 	case "name":
 		sel = []string{c.name(0)}
+		if len(c.Req) > 0 {
+			sel = nil
+			for _, i := range c.Req {
+				sel = append(sel, c.name(i))
+			}
+			if c.ReqUndef > 0 {
+				k := c.ReqUndef - 1
+				sel = append(sel[:k:k], append([]string{"notatask"}, sel[k:]...)...)
+			}
+		}
 	case "clean":
 		sel = []string{"--clean"}
 	}
@@ -120,7 +143,14 @@ func execGraphBin(s *ev.Shard, b *sandbox.Box, c GraphBinCase) *rp.Fail {
 			}
 		}
 	}
-	visit(0)
+	roots := []int{0}
+	if c.Via == "name" && len(c.Req) > 0 {
+		roots = c.Req
+		undefined = c.ReqUndef > 0
+	}
+	for _, r0 := range roots {
+		visit(r0)
+	}
 	color := make([]int, c.N)
 	var dfs func(int) bool
 	dfs = func(i int) bool {
@@ -136,7 +166,12 @@ func execGraphBin(s *ev.Shard, b *sandbox.Box, c GraphBinCase) *rp.Fail {
 		color[i] = 2
 		return false
 	}
-	cyclic := dfs(0)
+	cyclic := false
+	for _, r0 := range roots {
+		if color[r0] == 0 && dfs(r0) {
+			cyclic = true
+		}
+	}
 	if undefined || cyclic {
 		why := "a depended-on task is undefined"
 		if cyclic && !undefined {
@@ -196,6 +231,9 @@ func execGraphBin(s *ev.Shard, b *sandbox.Box, c GraphBinCase) *rp.Fail {
 		s.Class("selected_via_" + c.Via)
 		if len(closure) >= 2 {
 			s.NonTrivial("gb:" + src + strings.Join(args, " "))
+		}
+		if len(roots) >= 2 {
+			s.Class("several_tasks_requested")
 		}
 	}
 	return nil
